@@ -359,8 +359,8 @@ def r2_bucket_index(ctx, rule='C01.R2'):
                               show_c(t), ' / '.join(show_c(x) for x in ca)), s.where())
 
 
-def r3_container_agreement(ctx):
-    ctx.set_rule('C01.R3')
+def r3_container_agreement(ctx, rule='C01.R3'):
+    ctx.set_rule(rule)
     fa = ctx.anchor(Q + '::add')
     fc = ctx.anchor(Q + '::cancel')
     if not (fa and fc):
